@@ -686,7 +686,7 @@ pub fn out_calls_strategy(allow_set_prompt: bool) -> impl Strategy<Value = Vec<O
         t
     });
     let text = prop_oneof![24 => short, 1 => long].boxed();
-    let call = (0u8..15, text.clone(), text, 0usize..5, any::<bool>(), any::<u16>()).prop_map(move |(k, a, b, p, split, chs)| {
+    let call = (0u8..18, text.clone(), text, 0usize..5, any::<bool>(), any::<u16>()).prop_map(move |(k, a, b, p, split, chs)| {
         let mut a = a;
         if split {
             a.push('\r'); // fixed up below unless the next call starts with LF
@@ -699,6 +699,9 @@ pub fn out_calls_strategy(allow_set_prompt: bool) -> impl Strategy<Value = Vec<O
             7..=8 => OutCall::Fmt(a.replace('\r', ""), b),
             9 => OutCall::UwriteChar(ch),
             13 | 14 => OutCall::FmtLit((chs % 5) as u8),
+            // the formatting helpers of Writer: their text (see `session::rendered`) is framed like any other
+            15 | 16 => OutCall::ListElement(pick(&["", "x", "uart", "é", "имя", "a\nb"], chs).to_string(), b.replace('\r', ""), (chs % 13) as usize),
+            17 => OutCall::Title(b.replace('\r', "")),
             10 => OutCall::FmtChar(ch),
             11 => {
                 // handler only: print, then reject the command
